@@ -394,6 +394,8 @@ class Check:
         out = {"checks": 0, "holds": 0, "fails": [], "unknown": [], "solver_s": 0.0}
         for desc, prop, on_fail in self.items:
             t0 = time.time()
+            if isinstance(prop, str) and prop == "UNKNOWN":
+                out["checks"] += 1; out["unknown"].append(desc); continue
             r, model = self.m.check(prop, timeout_ms)
             out["solver_s"] += time.time() - t0
             out["checks"] += 1
@@ -552,3 +554,17 @@ def standard_finish(pid, ev, obs, results, tot, role_fn, bounds, rule, assumptio
            solver_time_s=round(tot["solver_s"], 2), panic_leaves=len(tot["panics"]))
     ev.assume(*assumptions)
     C.finish(ev, violations, undecided[:30], sorted(set(known_lines)))
+
+
+def poly_identity(a, b):
+    """a == b for F values decided by ring normalisation of n1*d2 - n2*d1 (sum-of-monomials normal form of z3's
+    simplifier): True = identity proved, None = not decided this way (fall back to a solver query)"""
+    (n1, d1), (n2, d2) = a.pair(), b.pair()
+    e = n1 * d2 - n2 * d1
+    try:
+        r = z3.simplify(e, som=True, flat=True, arith_lhs=True, sort_sums=True)
+    except z3.Z3Exception:
+        return None
+    if z3.is_rational_value(r) and r.numerator_as_long() == 0:
+        return True
+    return None
